@@ -59,11 +59,14 @@ type Conn struct {
 	CallLog    []string // last few calls: "step:gid:what"
 
 	// fault plan (set before the run or by environment actions)
-	WriteErrAfter int  // fail writes once this many bytes were accepted; <0: never
-	CutAfter      int  // the peer's stream ends after this many bytes; <0: never
-	StopReadAt    int  // the peer process stops reading after this many client bytes (stuck server, black hole); <0: never
-	wbusy         bool // a Write is in progress: like the fd write lock, a second Write waits for it whatever the deadline
-	CloseErr      bool // Close releases the connection but reports an error (tls.Conn does when close_notify cannot be written)
+	WriteErrAfter int           // fail writes once this many bytes were accepted; <0: never
+	CutAfter      int           // the peer's stream ends after this many bytes; <0: never
+	StopReadAt    int           // the peer process stops reading after this many client bytes (stuck server, black hole); <0: never
+	PauseReadAt   int           // the peer process stops reading after this many client bytes ... (<0: never)
+	PauseFor      time.Duration // ... for this long (a busy server), and then carries on
+	pausedAt      time.Duration // when the pause began (-1: not yet)
+	wbusy         bool          // a Write is in progress: like the fd write lock, a second Write waits for it whatever the deadline
+	CloseErr      bool          // Close releases the connection but reports an error (tls.Conn does when close_notify cannot be written)
 	CutRST        bool
 	Window        int // >0: Write blocks while more than Window bytes are unconsumed
 	ReadCap       int // >0: the next Read returns at most this many bytes (short read)
@@ -76,7 +79,7 @@ type Conn struct {
 }
 
 func NewConn(s *sched.Sim, id int, p Peer) *Conn {
-	return &Conn{Sim: s, ID: id, Peer: p, wake: make(chan struct{}), WriteErrAfter: -1, CutAfter: -1, StopReadAt: -1, Fired: map[string]int{}}
+	return &Conn{Sim: s, ID: id, Peer: p, wake: make(chan struct{}), WriteErrAfter: -1, CutAfter: -1, StopReadAt: -1, PauseReadAt: -1, pausedAt: -1, Fired: map[string]int{}}
 }
 
 type addr string
@@ -515,9 +518,7 @@ func (c *Conn) ConsumeTo(n int) {
 	if n > len(c.Out) {
 		n = len(c.Out)
 	}
-	if c.StopReadAt >= 0 && n > c.StopReadAt {
-		n = c.StopReadAt
-	}
+	n = c.peerLimit(n)
 	if n > c.Consumed {
 		c.Consumed = n
 		c.signal()
@@ -533,6 +534,25 @@ func (c *Conn) OutCopy() []byte {
 	return appendBytes(nil, c.Out)
 }
 
+// peerLimit caps n, the number of client bytes the peer process may have read
+// by now (called with the lock held).
+func (c *Conn) peerLimit(n int) int {
+	if c.StopReadAt >= 0 && n > c.StopReadAt {
+		n = c.StopReadAt
+	}
+	if c.PauseReadAt >= 0 && n > c.PauseReadAt {
+		if c.pausedAt < 0 {
+			c.pausedAt = c.Sim.Now()
+			c.Fired["peer_pauses_reading"]++
+			c.Sim.WakeAfter(c.PauseFor + time.Millisecond)
+		}
+		if c.Sim.Now() < c.pausedAt+c.PauseFor {
+			n = c.PauseReadAt
+		}
+	}
+	return n
+}
+
 // PeerView is what the peer process has been able to read of the client's
 // stream: everything, unless the peer stopped reading (StopReadAt).
 //
@@ -540,10 +560,7 @@ func (c *Conn) OutCopy() []byte {
 func (c *Conn) PeerView() []byte {
 	c.lock()
 	defer c.unlock()
-	n := len(c.Out)
-	if c.StopReadAt >= 0 && n > c.StopReadAt {
-		n = c.StopReadAt
-	}
+	n := c.peerLimit(len(c.Out))
 	return appendBytes(nil, c.Out[:n])
 }
 
@@ -551,11 +568,7 @@ func (c *Conn) PeerView() []byte {
 func (c *Conn) PeerViewLen() int {
 	c.lock()
 	defer c.unlock()
-	n := len(c.Out)
-	if c.StopReadAt >= 0 && n > c.StopReadAt {
-		n = c.StopReadAt
-	}
-	return n
+	return c.peerLimit(len(c.Out))
 }
 
 //go:norace
